@@ -236,7 +236,7 @@ pub fn set_options(
 
     // Setting ComputedValues
     set_widths_and_isatty(opt);
-    set_true_color(opt);
+    set_true_color(opt, arg_matches);
     theme::set__color_mode__syntax_theme__syntax_set(opt, assets);
     opt.computed.inspect_raw_lines =
         cli::InspectRawLines::from_str(&opt.inspect_raw_lines).unwrap();
@@ -654,10 +654,10 @@ fn set_widths_and_isatty(opt: &mut cli::Opt) {
         background_color_extends_to_terminal_width;
 }
 
-fn set_true_color(opt: &mut cli::Opt) {
-    if opt.true_color == "auto" {
-        // It's equal to its default, so the user might be using the deprecated
-        // --24-bit-color option.
+fn set_true_color(opt: &mut cli::Opt, arg_matches: &clap::ArgMatches) {
+    // The deprecated --24-bit-color option can only be given on the command line: it stands for
+    // --true-color there, and so comes before a value of true-color from git config.
+    if !config::user_supplied_option("true_color", arg_matches) {
         if let Some(_24_bit_color) = opt._24_bit_color.as_ref() {
             opt.true_color.clone_from(_24_bit_color);
         }
